@@ -58,9 +58,6 @@ func (f *Flow) Facts(b *cfg.Block, succ int) []cfgq.Fact {
 		if s.Tag == nil {
 			return cfgq.Facts(e, succ == 0)
 		}
-		if len(cl.List) > 1 && succ == 0 {
-			// several values share a body: only this value's test is known
-		}
 		return []cfgq.Fact{{Expr: &ast.BinaryExpr{X: s.Tag, Op: token.EQL, Y: e}, Val: succ == 0}}
 	}
 	switch b.Succs[0].Kind {
@@ -70,7 +67,50 @@ func (f *Flow) Facts(b *cfg.Block, succ int) []cfgq.Fact {
 	return cfgq.Facts(e, succ == 0)
 }
 
-// Edge builds an AvoidEdge predicate: the edge establishes a fact accepted by match.
+// Alts returns atoms of which at least one holds when cond evaluates to val
+// (the dual of cfgq.Facts: disjuncts on the true edge, negated conjuncts on
+// the false edge).
+func Alts(cond ast.Expr, val bool) []cfgq.Fact {
+	cond = ast.Unparen(cond)
+	switch c := cond.(type) {
+	case *ast.UnaryExpr:
+		if c.Op == token.NOT {
+			return Alts(c.X, !val)
+		}
+	case *ast.BinaryExpr:
+		if c.Op == token.LOR && val || c.Op == token.LAND && !val {
+			return append(Alts(c.X, val), Alts(c.Y, val)...)
+		}
+		if c.Op == token.LOR || c.Op == token.LAND {
+			return nil // a conjunction of facts: see cfgq.Facts
+		}
+	}
+	return []cfgq.Fact{{Expr: cond, Val: val}}
+}
+
+// alts is Alts for the edge b -> b.Succs[succ] (if/for conditions and tagless switch cases).
+func (f *Flow) alts(b *cfg.Block, succ int) []cfgq.Fact {
+	if len(b.Succs) != 2 || len(b.Nodes) == 0 {
+		return nil
+	}
+	e, ok := b.Nodes[len(b.Nodes)-1].(ast.Expr)
+	if !ok {
+		return nil
+	}
+	switch b.Succs[0].Kind {
+	case cfg.KindSelectCaseBody, cfg.KindRangeBody:
+		return nil
+	case cfg.KindSwitchCaseBody:
+		cl, _ := b.Succs[0].Stmt.(*ast.CaseClause)
+		if s := f.sw[cl]; s == nil || s.Tag != nil {
+			return nil
+		}
+	}
+	return Alts(e, succ == 0)
+}
+
+// Edge builds an AvoidEdge predicate: the edge establishes a fact accepted by
+// match, or a disjunction of facts all of which are accepted by match.
 func (f *Flow) Edge(match func(cfgq.Fact) bool) func(*cfg.Block, int) bool {
 	return func(b *cfg.Block, s int) bool {
 		for _, ft := range f.Facts(b, s) {
@@ -78,7 +118,13 @@ func (f *Flow) Edge(match func(cfgq.Fact) bool) func(*cfg.Block, int) bool {
 				return true
 			}
 		}
-		return false
+		al := f.alts(b, s)
+		for _, ft := range al {
+			if !match(ft) {
+				return false
+			}
+		}
+		return len(al) > 0
 	}
 }
 
